@@ -632,6 +632,11 @@ class MiniInterp:
                         return getattr(recv, f.attr)(*args)
                     except (TypeError, ValueError, IndexError, _re.error) as e:
                         raise ModelError(f"{type(e).__name__}: {e}")
+                if isinstance(recv, bytearray) and f.attr in ("clear", "extend", "append", "copy", "find", "count", "startswith", "endswith", "decode"):
+                    try:
+                        return getattr(recv, f.attr)(*args)
+                    except (TypeError, ValueError) as e:
+                        raise ModelError(f"{type(e).__name__}: {e}")
                 if isinstance(recv, list) and f.attr in ("append", "extend", "pop", "clear", "insert", "remove", "reverse", "sort", "copy"):
                     try:
                         return getattr(recv, f.attr)(*args)
@@ -760,6 +765,62 @@ def _load(t):
 
 # ---- normalised views of methods: private helpers inlined, named temporaries substituted -----------------------
 
+def _single_return_expr(h):
+    """the helper is `return <expression>`: it can be put in place as an expression and needs no temporary"""
+    body = [s_ for s_ in h.body if not (isinstance(s_, ast.Expr) and isinstance(s_.value, ast.Constant))]
+    return len(body) == 1 and isinstance(body[0], ast.Return) and body[0].value is not None
+
+
+def _field_inliner(mod, cls_names):
+    """An Inliner for methods of PRIVATE NESTED classes of the given classes (small state records such as Telnet._OptionState._Perspective) called on
+    a field: ``s.him.succeed("yes")`` is expanded with the receiver expression in the place of ``self``.  Resolution is by method name, so only names
+    defined exactly once among those nested classes - and not as a method of the outer classes - are followed."""
+    from sa.props._lib_h_d import Inliner, _Subst, _clone, _NoInline
+    from sa.source import methods as _methods
+
+    nested = {}
+    outer = set()
+
+    def collect(c, top):
+        for st in c.body:
+            if isinstance(st, ast.ClassDef) and st.name.startswith("_"):
+                for n_, f_ in _methods(st).items():
+                    if not (n_.startswith("__") and n_.endswith("__")):
+                        nested.setdefault(n_, []).append(f_)
+                collect(st, False)
+        if top:
+            outer.update(_methods(c))
+    for c in mod.classes():
+        if c.name in cls_names:
+            collect(c, True)
+    table = {n_: fs[0] for n_, fs in nested.items() if len(fs) == 1 and n_ not in outer}
+
+    class FieldInliner(Inliner):
+        def helper_of(self, call):
+            if isinstance(call, ast.Call) and isinstance(call.func, ast.Attribute) and call.func.attr in table and not call.keywords \
+                    and not (isinstance(call.func.value, ast.Name) and call.func.value.id == "self") and pure_expr(call.func.value):
+                h = table[call.func.attr]
+                if not h.decorator_list and not (h.args.vararg or h.args.kwarg or h.args.kwonlyargs) and len(h.args.args) - 1 == len(call.args) \
+                        and not any(isinstance(x, (ast.Yield, ast.YieldFrom, ast.Await)) for x in walk_local(h)):
+                    return h
+            return None
+
+        def _body(self, h, call):
+            body = [s_ for s_ in _clone(h.body) if not (isinstance(s_, ast.Expr) and isinstance(s_.value, ast.Constant) and isinstance(s_.value.value, str))]
+            params = [a.arg for a in h.args.args[1:]]
+            rebound = {t.id for s_ in walk_local(ast.Module(body=body, type_ignores=[])) if isinstance(s_, (ast.Assign, ast.AugAssign, ast.For))
+                       for t in ([s_.target] if not isinstance(s_, ast.Assign) else s_.targets) if isinstance(t, ast.Name)}
+            if rebound & (set(params) | {h.args.args[0].arg}):
+                raise _NoInline("parameter re-bound in helper")
+            mapping = dict(zip(params, call.args))
+            mapping[h.args.args[0].arg] = call.func.value
+            sub = _Subst(mapping)
+            return [sub.visit(s_) for s_ in body]
+    fi = FieldInliner(mod, cls_names, set())
+    fi.table = table
+    return fi
+
+
 class Normaliser:
     """``Normaliser(mod, class_names, known).view(func)`` gives an analysis copy of ``func`` in which
     (1) calls of unknown private helpers of the same classes are expanded at the call site (also when the call sits inside a
@@ -773,6 +834,7 @@ class Normaliser:
         from sa.source import methods as _methods
         public = {n for c in mod.classes() if c.name in cls_names for n in _methods(c) if not n.startswith("_") or n.startswith("__")}
         self.inl = Inliner(mod, cls_names, set(known) | public)      # only private helpers are ever expanded
+        self.finl = _field_inliner(mod, cls_names)                   # methods of private nested state classes called on a field
         self.subscripts = subscripts
         self.presplit = presplit
         self.expanded_cms: set = set()         # private @contextmanager methods read at their `with` sites
@@ -795,6 +857,9 @@ class Normaliser:
         v.body = self._split_shortcircuit(v.body)
         v.body = self._hoist_block(v.body)
         v.body = self.inl._stmts(v.body, 0)
+        if self.finl.table:
+            v.body = self._hoist_block(v.body, self.finl)
+            v.body = self.finl._stmts(v.body, 0)
         for _ in range(3):
             v.body, again = self._fold_flags(v.body, v)
             if not again:
@@ -1092,14 +1157,15 @@ class Normaliser:
         return res
 
     # -- (1) helper calls nested in expressions -> temporaries
-    def _hoist_block(self, stmts):
+    def _hoist_block(self, stmts, inl=None):
+        inl = inl or self.inl
         out = []
         for st in stmts:
             for field in ("body", "orelse", "finalbody"):
                 if isinstance(getattr(st, field, None), list) and not isinstance(st, (ast.FunctionDef, ast.AsyncFunctionDef, ast.ClassDef)):
-                    setattr(st, field, self._hoist_block(getattr(st, field)))
+                    setattr(st, field, self._hoist_block(getattr(st, field), inl))
             for h in getattr(st, "handlers", []) or []:
-                h.body = self._hoist_block(h.body)
+                h.body = self._hoist_block(h.body, inl)
             if isinstance(st, (ast.Expr, ast.Assign, ast.AugAssign, ast.Return)) and st.value is not None:
                 top = st.value
                 pre = []
@@ -1108,7 +1174,7 @@ class Normaliser:
                 class T(ast.NodeTransformer):
                     def visit_Call(self, node):
                         self.generic_visit(node)
-                        if node is not top and outer.inl.helper_of(node) is not None:
+                        if node is not top and inl.helper_of(node) is not None and not _single_return_expr(inl.helper_of(node)):
                             outer._n += 1
                             tmp = f"_h{outer._n}"
                             pre.append(ast.copy_location(ast.Assign(targets=[ast.Name(id=tmp, ctx=ast.Store())], value=node, lineno=st.lineno), st))
